@@ -53,6 +53,22 @@ func Pick[T any](quick, thorough T) T {
 	return quick
 }
 
+// Inflight records the case about to be checked in $VERIF_INFLIGHT (if set), so that the driver
+// can attribute a fatal, unrecoverable crash of the process (stack overflow, concurrent map
+// write) to the case in flight and turn it into a replay file.
+func Inflight(prop, kind string, c any) {
+	path := os.Getenv("VERIF_INFLIGHT")
+	if path == "" {
+		return
+	}
+	raw, err := json.Marshal(c)
+	if err != nil {
+		return
+	}
+	b, _ := json.Marshal(ev.Replay{Property: prop, Kind: kind, Case: raw, Msg: "process died while this case was in flight"})
+	_ = os.WriteFile(path, b, 0o644)
+}
+
 // Safe runs f and converts a panic into an error carrying the stack.
 func Safe(f func() error) (err error) {
 	defer func() {
